@@ -186,6 +186,13 @@ func (x *Exec) modelCall(st *State, key string, sig *types.Signature, args []Val
 	case key == "fmt.Sprintf" || key == "fmt.Sprint":
 		cont(st, Scalar{x.decls.Fresh("str", "Str")})
 		return true
+	case key == pkgTensor+".BorrowInts":
+		// model of the trusted pool primitive: a fresh, zeroed slice with len == cap == size
+		n := args[0].(Scalar).T
+		x.addObl(st, "pre", "tensor.BorrowInts:size", Le(IntLit(0), n), pos, "BorrowInts: size >= 0")
+		x.usedContracts[key] = true
+		cont(st, x.makeSlice(st, types.Typ[types.Int], n, n, true))
+		return true
 	case key == "runtime.SetFinalizer" || key == "runtime.KeepAlive":
 		cont(st, nil)
 		return true
